@@ -11,7 +11,9 @@ import (
 
 func init() { generators["C03"] = genC03 }
 
-var bmVocab = []string{"alpha", "beta", "gamma", "delta", "Fast", "index", " ", ",", "ﬁsh", "１２", "İ", "naïve", "x-y", "don't", "3.14", "ÀB", "ǅ", "㎏", "\t", "\n", "ＡＢ", "Ω", "ß"}
+var bmVocab = []string{"alpha", "beta", "gamma", "delta", "Fast", "index", " ", ",", "ﬁsh", "１２", "İ", "naïve", "x-y", "don't", "3.14", "ÀB", "ǅ", "㎏", "\t", "\n", "ＡＢ", "Ω", "ß",
+	// compatibility characters whose NFKC decomposition contains capitals (normalise, THEN lower-case), next to their plain spellings
+	"℡", "tel", "㎑", "khz", "№", "no", "㏂", "a.m."}
 
 func bmText(r *rand.Rand) string {
 	n := r.Intn(8)
